@@ -25,10 +25,8 @@ func parseDump(s string) *dumpRec { return spw.ParseDump(s) }
 // known: signatures already recorded in known_findings.jsonl — used ONLY to choose which violation of a case to report
 // first (an unrecorded one wins), never to suppress one.
 var known = map[string]bool{
-	// "C23:shutdown-saves-under-caller-id" and "C23:rewarded-after-shutdown" were fixed by repo commit d221d33: they
-	// are NOT listed here any more, so a regression is reported first (and, being unlisted in known_findings, as a VIOLATION)
-	"C23:shutdown-refresh-before-authorisation": true,
-	"C23:storagesc-kill-on-miner-id-panics":     true,
+	// all four recorded C23 findings are repaired in /repo (d221d33 save key, 40a4a9f authorisation first, e59baf9 no
+	// panic on a cached record of another type): nothing is listed, every signature is reported as a VIOLATION if it returns
 }
 
 func slashed(b uint64, slash float64) uint64 {
@@ -300,11 +298,13 @@ func fixed() [][]string {
 		// the delegate wallet of blobber 30 is itself blobber 31 (before d221d33 shutting 30 down overwrote 31's pool)
 		{hdr(0.5), "reg blobber 30 31 10 " + r, "reg blobber 31 51 10 " + r, "lock blobber 30 41 10000000000000 1700000000", "lock blobber 31 42 5000000000000 1700000000", "dump",
 			"shutdown blobber 30 31", "dump", "unlock blobber 31 42 2000000000", "dump"},
-		// a stranger "shuts down" an already shut-down blobber: the refresh runs before any authorisation
+		// a stranger "shuts down" an already shut-down blobber (before 40a4a9f the refresh ran before any authorisation)
 		{hdr(0.5), "reg blobber 30 50 10 " + r, "reg blobber 31 51 10 " + r, "lock blobber 30 46 10000000000000 1700000000", "lock blobber 31 46 10000000000000 1700000000",
 			"alloc 47 30 31 1000000000", "dump", "shutdown blobber 30 3", "dump", "shutdown blobber 30 45", "dump"},
-		// storage-contract kill aimed at a miner id by a stranger
-		{hdr(0.5), "reg miner 10 56 10 " + r, "reg validator 35 53 10 " + r, "dump", "kill validator 10 45", "dump"},
+		// storage-contract kill / shut-down aimed at a miner's and a sharder's id, by a stranger and by the owner (before e59baf9: panic)
+		{hdr(0.5), "reg miner 10 56 10 " + r, "reg sharder 20 58 10 " + r, "reg validator 35 53 10 " + r, "lock miner 10 41 500000000000 1700000000", "dump",
+			"kill validator 10 45", "dump", "kill validator 10 3", "dump", "shutdown validator 20 3", "dump", "kill blobber 10 3", "dump",
+			"shutdown blobber 20 58", "dump", "shutdown blobber 10 45", "dump", "kill miner 10 3", "dump"},
 		// kill by the owner, twice (refresh), rewards afterwards
 		{hdr(0.3), "reg blobber 30 50 10 " + r, "lock blobber 30 41 3330000000007 1700000000", "dump", "kill blobber 30 45", "dump", "kill blobber 30 3", "dump", "kill blobber 30 3", "dump",
 			"reward blobber 30 5000", "dump", "unlock blobber 30 41 2000000000", "dump"},
